@@ -145,6 +145,14 @@ fn pay_honest(rc: &mut RawCustomer, amount: i64, template: &Trace, s: &mut Sched
     if unblinds_to_signature_on(m, &cs, &d.cl.bf, &wrong) {
         o.violate("closing-signature-ignores-slot", "allow_payment/closing-signature/slot3", "closing signature also verifies with another customer balance".into());
     }
+    for (i, j) in [(3usize, 4usize), (2, 3), (0, 4), (1, 3)] {
+        let mut w = h.new_cl;
+        w[i] += Scalar::one();
+        w[j] -= Scalar::one();
+        if unblinds_to_signature_on(m, &cs, &d.cl.bf, &w) {
+            o.violate("closing-signature-ignores-slot", &format!("allow_payment/closing-signature/slots{}+{}", i, j), "closing signature also verifies when value is moved between two slots".into());
+        }
+    }
     // the handed-back commitment commits to the OLD lock: a wrong pair is refused, the right one completes
     let mut rng = SimRng::new(seed, &format!("c02/complete/{}", tag));
     let (wl, ws, wi) = hash_lock(s);
